@@ -78,6 +78,11 @@ def gen_cases(tier: str, seed: int):
                          ["create_table", db, sc, t, [["A", "INT", False], ["B", "VARCHAR(10)", False]], None, True, False, False],
                          ["comment_on", db, sc, t, "new"], ["drop_table", db, sc, t],
                          ["create_table", db, sc, t, [["A", "VARCHAR", False]], None, False, False, False]]}
+    yield {"steps": [["create_table", "DB1", "S1", "T1", [["A", "VARCHAR(10)", False]], "c1", False, False, False], ["set_comment", "DB1", "S1", "T1", "old"],
+                     ["comment_on", "DB1", "S1", "T1", "new"], ["noop", "DB1", "S1", "T1", "set_var"], ["noop", "DB1", "S1", "T1", "set_tag"],
+                     ["create_table", "DB1", "S1", "T1", [["A", "INT", False]], "c2", True, False, False], ["noop", "DB1", "S1", "T1", "cluster_by"],
+                     ["create_table", "DB1", "S2", "T1", [["B", "VARCHAR(255)", False]], None, False, False, False], ["noop", "DB1", "S2", "T1", "unset_var"],
+                     ["set_comment", "DB1", "S2", "T1", ""], ["noop", "DB1", "S1", "T1", "set_var"], ["comment_on", "DB1", "S1", "T1", ""], ["noop", "DB1", "S1", "T1", "set_var"]]}
     for _ in range(n):
         steps = []
         for _ in range(r.randint(5, maxsteps)):
@@ -108,8 +113,10 @@ def gen_cases(tier: str, seed: int):
                 steps.append([r.choice(["comment_on", "set_comment"]), db, sc, t, r.choice(["new", "other", ""])])
             elif x < 0.90:
                 steps.append(["create_view", db, sc, r.choice(["V1", "V2"]), r.choice(TABS)])
-            elif x < 0.95:
+            elif x < 0.93:
                 steps.append([r.choice(["failing_create", "failing_ctas", "failing_drop_other"]), db, sc, t, _cols(r)])
+            elif x < 0.96:
+                steps.append(["noop", db, sc, t, r.choice(["set_var", "set_tag", "cluster_by", "unset_var"])])
             else:
                 steps.append(["drop_view", db, sc, r.choice(["V1", "V2"])])
         yield {"steps": steps}
@@ -229,6 +236,22 @@ def _run(case: dict, env: core.Env, fs: Any) -> None:
             if not exists or model[key]["kind"] != "view":
                 continue
             sql = f"DROP VIEW {fq}"
+        if op == "noop":
+            # statements that leave every table's metadata alone, whatever ran before them
+            how = st[4]
+            if how in ("set_tag", "cluster_by") and not (exists and model[key]["kind"] == "table"):
+                continue
+            c0 = model[key]["cols"][0][0] if exists else "A"
+            sql = {"set_var": "SET c09_var = 'x'", "unset_var": "UNSET c09_var", "set_tag": f"ALTER TABLE {fq} SET TAG cost_center = 'sales'",
+                   "cluster_by": f"ALTER TABLE {fq} CLUSTER BY ({c0})"}[how]
+            env.cover("op", f"noop/{how}")
+            out = core.run_stmt(cur, sql)
+            if not out["ok"]:
+                env.count("noop_statement_rejected")
+                continue
+            _observe(env, {"DB1": conn, "DB2": obs}, model, f"step {si} {sql!r} (no effect on metadata)", "noop")
+            altered = True
+            continue
         if op in ("failing_create", "failing_ctas", "failing_drop_other"):
             # statements that fail (or are no-ops) must leave every observer's answer as it was
             if op == "failing_create":
